@@ -1,0 +1,89 @@
+//! Verification hooks (compiled only with `--cfg ragc_verif`; see /verif/DESIGN.md 3.5).
+//!
+//! * a global, ordered event log (events are appended while the instrumented lock is held, so the
+//!   log order is the linearisation order of the instrumented object);
+//! * per-thread ids chosen by the harness;
+//! * a seeded perturbation scheduler: `yield_point(site)` is a no-op unless a seed was installed.
+use std::cell::Cell;
+use std::sync::atomic::{AtomicU64, Ordering};
+use std::sync::Mutex;
+
+static LOG: Mutex<Vec<String>> = Mutex::new(Vec::new());
+static LOG_ON: AtomicU64 = AtomicU64::new(0);
+static SCHED_SEED: AtomicU64 = AtomicU64::new(0);
+static NEXT_AUTO_TID: AtomicU64 = AtomicU64::new(1000);
+
+thread_local! {
+    static TID: Cell<u64> = Cell::new(u64::MAX);
+    static RNG: Cell<u64> = Cell::new(0);
+}
+
+/// Harness: name the current thread.
+pub fn set_tid(t: u64) {
+    TID.with(|c| c.set(t));
+    RNG.with(|c| c.set(0));
+}
+
+/// Id of the current thread (threads the harness did not name get 1000, 1001, ...).
+pub fn tid() -> u64 {
+    TID.with(|c| {
+        if c.get() == u64::MAX {
+            c.set(NEXT_AUTO_TID.fetch_add(1, Ordering::SeqCst));
+        }
+        c.get()
+    })
+}
+
+pub fn enable_log(on: bool) {
+    LOG_ON.store(on as u64, Ordering::SeqCst);
+}
+
+pub fn log_enabled() -> bool {
+    LOG_ON.load(Ordering::Relaxed) != 0
+}
+
+/// Append one event (call while holding the lock of the object the event is about).
+pub fn log_event(ev: String) {
+    if log_enabled() {
+        LOG.lock().unwrap_or_else(|e| e.into_inner()).push(ev);
+    }
+}
+
+pub fn take_log() -> Vec<String> {
+    std::mem::take(&mut *LOG.lock().unwrap_or_else(|e| e.into_inner()))
+}
+
+/// Install (seed != 0) or remove (seed == 0) the perturbation scheduler.
+pub fn set_scheduler(seed: u64) {
+    SCHED_SEED.store(seed, Ordering::SeqCst);
+}
+
+/// A point where the scheduler may delay the current thread (yield, spin or sleep a few microseconds).
+pub fn yield_point(site: u32) {
+    let seed = SCHED_SEED.load(Ordering::Relaxed);
+    if seed == 0 {
+        return;
+    }
+    let r = RNG.with(|c| {
+        let mut x = c.get();
+        if x == 0 {
+            x = seed ^ (tid().wrapping_add(1)).wrapping_mul(0x9E37_79B9_7F4A_7C15) ^ ((site as u64) << 32) | 1;
+        }
+        x ^= x << 13;
+        x ^= x >> 7;
+        x ^= x << 17;
+        c.set(x);
+        x
+    });
+    match r % 8 {
+        0 | 1 | 2 => {}
+        3 | 4 => std::thread::yield_now(),
+        5 => {
+            for _ in 0..(r >> 8) % 2000 {
+                std::hint::spin_loop();
+            }
+        }
+        6 => std::thread::sleep(std::time::Duration::from_micros((r >> 8) % 200)),
+        _ => std::thread::sleep(std::time::Duration::from_micros((r >> 8) % 3000)),
+    }
+}
